@@ -374,7 +374,8 @@ func oracleC13(in string, r *rng, fail failFn) int {
 			fail("embed-differs", in, fmt.Sprintf("context %d verdict %v but verdict of %q+input as markup is %v", c, v[c], embeds[c], e))
 		}
 	}
-	prefixes := []string{"x", "hello world ", ">", "'\"`", "a=b ", "\x00", "&#x3c;", "--!>"}
+	prefixes := []string{"x", "hello world ", ">", "'\"`", "a=b ", "\x00", "&#x3c;", "--!>",
+		"\u0131", "\u0131\u0131", "\u017f", "\u0250", "\xff", "K\u0131z\u0131m ", "\u0130\u212a"}
 	for k := 0; k < 3; k++ {
 		p := prefixes[r.intn(len(prefixes))]
 		if k == 2 {
@@ -385,8 +386,19 @@ func oracleC13(in string, r *rng, fail failFn) int {
 			fail("prefix-changes-verdict", in, fmt.Sprintf("data verdict %v but with '<'-free prefix %q: %v", v[0], p, got))
 		}
 	}
+	// prefix / suffix pairs whose Unicode case mappings change the byte length in
+	// opposite directions (U+0131, U+017F shrink; U+0250 and invalid bytes grow)
+	for _, ps := range lengthPairs {
+		s2 := in + ps[1]
+		n += 2
+		if want, got := li.VerifIsXSSCtx(s2, 0), li.VerifIsXSSCtx(ps[0]+s2, 0); got != want {
+			fail("prefix-changes-verdict", s2, fmt.Sprintf("data verdict %v but with '<'-free prefix %q: %v", want, ps[0], got))
+		}
+	}
 	return n
 }
+
+var lengthPairs = [][2]string{{"\u0131", "\u0250"}, {"\u0131\u0131", "\xff"}, {"\u017f", " \u0250"}, {"\u0250", "\u0131"}, {"\xff", "\u017f\u0131"}}
 
 // ---------- C16 ----------
 
